@@ -180,7 +180,7 @@ def run(ctx):
         ctx.case("scale-sweep", ("sweep", scale))
         arc0 = [(F(r), F(0)), (F(r), F(r * math.tan(math.pi / 16))), (F(r * math.cos(math.pi / 8)), F(r * math.sin(math.pi / 8)))]
         reduced = len(core.dseg(drv.ask("cleanseg " + core.eseg(arc0)))) < 3
-        sig = {"family": "scale-sweep", "arcs_degree_reduced": reduced, "unit_below_0.1": scale < 0.1}
+        sig = {"family": "scale-sweep", "arcs_degree_reduced": reduced, "unit_below_0.5": scale < 0.5}
         try:
             with impl.time_limit(120):
                 R = C & S
